@@ -65,8 +65,17 @@ def handle (op : String) (req : Json) : R Json := do
     | some pk, some pk' =>
       if !samePeak pk pk' then
         throw s!"array twin differs from the model (peak): {pk.lag} {pk.value} vs {pk'.lag} {pk'.value}"
+      -- theorem peak_margin_register: a positive margin makes the mechanism return the reported lag
+      let positive := match pk.runnerUp with | some r => decide (r < pk.value) | none => true
+      if positive && model != pk.lag then
+        throw s!"peak_margin_register contradicted: margin positive, register = {model}, peak lag = {pk.lag}"
+      -- the decidable scene hypothesis of theorem register_truth at the translation the harness used
+      let truth ← getList asInt req "truth"
+      let th := truthHyp a b truth
+      if th && (!positive || pk.lag != truth) then
+        throw s!"register_truth contradicted: truthHyp holds at {truth}, peak lag = {pk.lag}"
       pure (jObj [("model", jList jInt model), ("lag", jList jInt pk.lag), ("max", jRat pk.value),
-                  ("runner", jOpt jRat pk.runnerUp)])
+                  ("runner", jOpt jRat pk.runnerUp), ("truthHyp", jBool th)])
     | _, _ => throw "empty lag box"
   | "c12.registerLong" =>
     -- long axes: the array twin over the whole lag box, the model at the decisive lags
@@ -98,9 +107,13 @@ def handle (op : String) (req : Json) : R Json := do
           if decode a.shape s k != l then throw s!"decode (encode {l}) differs"
           values := (l, v) :: values
       let valueAt (l : List Int) : Json := jOpt jRat ((values.find? (·.1 == l)).map (·.2))
+      -- theorem peak_margin_registerOf_fast
+      let positive := match pk.runnerUp with | some r => decide (r < pk.value) | none => true
+      if positive && model != pk.lag then
+        throw s!"peak_margin_registerOf_fast contradicted: margin positive, register = {model}, peak lag = {pk.lag}"
       pure (jObj [("model", jList jInt model), ("lag", jList jInt pk.lag), ("max", jRat pk.value),
                   ("runner", jOpt jRat pk.runnerUp), ("probed", jNat seen.length),
-                  ("asked", jList valueAt asked)])
+                  ("asked", jList valueAt asked), ("truthHyp", Json.null)])
   | "c12.anchor" =>
     -- every anchor for one `a` shape and a list of `b` shapes
     let a ← getList asInt req "a"
@@ -125,12 +138,24 @@ def handle (op : String) (req : Json) : R Json := do
     let shB ← getList asNat req "shapeB"
     let scene : Pew.Overlap.Idx → Rat := fun p =>
       if p.all (0 ≤ ·) then sc.get (p.map Int.toNat) else 0
-    let arrs := [window scene offA shA, window scene offB shB]
-    let mo := Pew.Overlap.minOffset ndim arrs
-    let (sh, mv) := Pew.Overlap.overlap false .replace none ndim arrs
-    let sv := (Pew.Overlap.allIdx (sh.map Int.toNat)).map
-      (fun p => sceneOnUnion scene none arrs (List.zipWith (· + ·) p mo))
-    pure (jObj [("shape", jList jInt sh), ("model", jList (jOpt jRat) mv), ("spec", jList (jOpt jRat) sv)])
+    let ws : List (List Int × List Nat) := [(offA, shA), (offB, shB)]
+    let arrs := ws.map fun w => window scene w.1 w.2
+    -- one result per requested (mode, fill): the mechanism `overlap false …` and `mergeSpec`, the right-hand side of
+    -- theorem merge_whole (replace and mean modes)
+    let variants ← getList (fun v => do
+      let ms ← getStr v "mode"
+      let m ← (match ms with
+        | "replace" => pure Pew.Overlap.Mode.replace
+        | "mean" => pure Pew.Overlap.Mode.mean
+        | _ => throw s!"c12.merge: mode {ms} is not covered by merge_whole")
+      let fill ← fld v "fill" >>= asOpt asRat
+      pure (m, fill)) req "variants"
+    let outs := variants.map fun (mf : Pew.Overlap.Mode × Pew.Overlap.V) =>
+      let (sh, mv) := Pew.Overlap.overlap false mf.1 mf.2 ndim arrs
+      let (sh', sv) := mergeSpec scene mf.2 ndim arrs
+      jObj [("shape", jList jInt sh), ("specShape", jList jInt sh'), ("model", jList (jOpt jRat) mv),
+            ("spec", jList (jOpt jRat) sv)]
+    pure (jObj [("results", Json.arr outs.toArray)])
   | _ => throw s!"unknown op {op}"
 
 end PewDriver.C12
